@@ -400,4 +400,65 @@ theorem run_loaded {s1 : St} (code : List Instr) (as : List AState) (τ : AState
           exact ⟨hw3.setData [] s3.pc (fun c hc => by cases hc), ⟨hm3.user, hm3.code, hm3.ids, hm3.pc⟩, rfl, hlin3, ha3, hw3.loopstack, hc3,
             vok_of_cell (hw3.data_head hdd) hcell⟩
 
+/-! ## One text -/
+
+/-- the interpreter between texts: the table invariant, the facts about `mainfunc`, at rest -/
+structure Served (s : St) : Prop where
+  wf : WF s
+  main : MainOK s
+  rest : AtRest s
+
+theorem runText_loaded (fuel : Nat) (es : List Expr) (s s1 : St) (code : List Instr) (t : Bool) (hpc : curSize s ≤ s.pc)
+    (hload : (runGen (compileBegin (isFnScope { s with trace := [] }) {} es)).run { s with trace := [] } = (.ok (code, t), s1)) :
+    runText fuel es s = finishRun ((run fuel).run (loaded s1 code)) := by
+  unfold runText
+  have hge : s.pc ≥ curSize { s with trace := [] } := hpc
+  simp only [hload, hge, if_true, List.append_nil]
+  rfl
+
+/-- **One text of the grammar that returns a value**, served by an interpreter that satisfies
+the invariants and is at rest: afterwards the invariants hold and the interpreter is at rest. -/
+theorem runText_ok (fuel : Nat) (es : List Expr) (s s' : St) (v : String) (tr : List String) (d : String) (alive : Bool)
+    (hs : Served s) (hok : okLs es = true) (h : runText fuel es s = (Outcome.done "ok" v tr d, s', alive)) : Served s' := by
+  obtain ⟨hw, hm, hd, hl, ha, hls, hcf, hpc⟩ := hs
+  obtain ⟨s0, hs0⟩ : ∃ s0 : St, s0 = { s with trace := [] } := ⟨_, rfl⟩
+  have hw0 : WF s0 := by
+    rw [hs0]
+    exact hw.mk' (TExt.same rfl rfl) (fun id h1 h2 => absurd h2 (Nat.not_lt.mpr h1)) hw.loopstack hw.scopes hw.heap hw.lazies hw.data
+  rcases hload : (runGen (compileBegin (isFnScope s0) {} es)).run s0 with ⟨r, s1⟩
+  cases r with
+  | error e =>
+    exfalso
+    unfold runText at h
+    rw [← hs0] at h
+    simp only [hload] at h
+    have := congrArg (fun x => x.1) h
+    simp at this
+  | ok ct =>
+    obtain ⟨code, t⟩ := ct
+    rw [hs0] at hload
+    rw [runText_loaded fuel es s s1 code t hpc hload] at h
+    rw [← hs0] at hload
+    rcases hr : (run fuel).run (loaded s1 code) with ⟨r, s3⟩
+    rw [hr] at h
+    cases r with
+    | error e =>
+      exfalso
+      cases e <;> (simp only [finishRun] at h; have := congrArg (fun x => x.1) h; simp at this)
+    | ok val =>
+      simp only [finishRun] at h
+      cases h
+      obtain ⟨hw1, he1, d1, l1, a1, c1, p1, _, hcode, hids, as, τ, hfrag, h0, hτ, hk, hfr, hb⟩ := load_ok (isFnScope s0) es code t hw0 hok hload
+      have hidx : mainFn < s0.fns.length := by have := hw0.two; show 0 < s0.fns.length; omega
+      have hfo : fnOf s1 mainFn = fnOf s mainFn := by rw [he1.fnOf mainFn hidx, hs0]; rfl
+      have hsz : (szS s).le (szS s1) := by have := he1.sz; rw [hs0] at this; exact this
+      obtain ⟨r1, r2, r3, r4, r5, r6, r7, _⟩ := run_loaded code as τ s0.loops.length fuel val s' hw1
+        (by rw [d1, hs0]; exact hd) (by rw [a1, hs0]; exact ha) (by rw [hfo]; exact hm.user) (by rw [hfo]; exact hm.code.mono hsz)
+        (by rw [hfo, hs0]; exact hm.ids) hids he1.loops_len (by rw [p1, hfo, hs0]; exact hm.pc) hcode hfrag h0 hτ hk hfr hb hr
+      refine ⟨r1, r2, r3, by rw [r4, l1, hs0]; exact hl, r5, r6, r7, ?_⟩
+      have hcs : curSize s' = ((fnOf s' mainFn).code.length : Int) := by
+        simp [curSize, r7, r2.user]
+      rw [hcs, r2.pc]
+      exact Int.le_refl _
+
 end ZygoVerif.RunInv
